@@ -64,7 +64,7 @@ fn main() {
     let mut f = std::io::BufWriter::new(std::fs::File::create(&out).expect("create out"));
     for (ci, c) in configs.iter().enumerate() {
         let tag = format!("c{}", ci);
-        let seed = c["seed"].as_u64().unwrap() + shift;
+        let seed = c["seed"].as_u64().unwrap().wrapping_add(shift);
         let steps = c["steps"].as_u64().unwrap();
         let step_size = c["step_size"].as_u64().unwrap();
         let tick = c["tick"].as_u64().unwrap() as u32;
